@@ -189,7 +189,9 @@ class Extremely(Hedge):
             $h(x) = \begin{cases} 2x^2 & \mbox{if } x \le 0.5 \cr 1-2(1-x)^2 & \mbox{otherwise} \cr \end{cases}$
         """
         x = scalar(x)
-        y = np.where(x <= 0.5, 2 * x**2, 1 - 2 * (1 - x) ** 2)
+        # np.square, not **2: for numpy scalars ** is pow(), for arrays it is a multiplication, and the two
+        # round differently for about one value in a thousand (floats and batches must agree exactly)
+        y = np.where(x <= 0.5, 2 * np.square(x), 1 - 2 * np.square(1 - x))
         return y
 
 
@@ -292,7 +294,7 @@ class Very(Hedge):
              $h(x) = x^2$
         """
         x = scalar(x)
-        y = x**2
+        y = np.square(x)  # not **2: see Extremely
         return y
 
 
